@@ -263,6 +263,16 @@ def oracle(p):
                 uu = FL.compose_flows(flow, uu, align_corners=ac)
                 vv = FL.compose_svfs(uu, vv, bch_terms=0, sigma=None)
             count("logv-flag")
+            # batches: item by item
+            fb = torch.cat([flow, flow * 0.5, -flow])
+            try:
+                wb = FL.logv(fb, num_iters=iters, bch_terms=1, sigma=None, exp_steps=4, align_corners=ac)
+                ref = torch.cat([FL.logv(fb[i:i + 1], num_iters=iters, bch_terms=1, sigma=None, exp_steps=4, align_corners=ac) for i in range(3)])
+                count("logv-batch")
+                if not float((wb - ref).abs().max()) <= 1e-12:
+                    fail("C13:logv:batch:item-mismatch", "batched logv differs from the per-item results", {"D": D, "n": nn, "ac": ac})
+            except Exception as e:  # noqa
+                fail("C13:logv:batch:raises", f"logv on a batch of 3 flow fields raises {type(e).__name__}: {str(e)[:120]}", {"D": D, "n": nn, "ac": ac})
             d = float((w - vv).abs().max())
             if not d <= 1e-12:
                 fail("C13:logv:align_corners-not-forwarded",
